@@ -354,6 +354,151 @@ fn trees_part(ctx: &Ctx, res: &mut PartResult, max_depth: usize, filters: &[Filt
     res.sample(json!({"tree": "[{create: a+b, record: a late}, {create: b, record: none}]", "filter": "Allowlist[a,c]", "metric_labels": "{a, c}"}));
 }
 
+
+/// spans created with an explicit parent (`parent: &p` / `parent: None`) while a different span is current, also from
+/// another thread: the ancestors whose fields count are the span's actual parents, not whatever is current where it is created
+fn mk_span_with_parent(create: u8, tag: &str, parent: Option<Option<&Span>>) -> Span {
+    let (va, vb) = (format!("{}a", tag), format!("{}b", tag));
+    macro_rules! mk {
+        ($($p:tt)*) => {
+            match create {
+                0 => tracing::info_span!($($p)* "s", a = Empty, b = Empty),
+                1 => tracing::info_span!($($p)* "s", a = va.as_str(), b = Empty),
+                2 => tracing::info_span!($($p)* "s", a = Empty, b = vb.as_str()),
+                _ => tracing::info_span!($($p)* "s", a = va.as_str(), b = vb.as_str()),
+            }
+        };
+    }
+    match parent {
+        None => mk!(),
+        Some(None) => mk!(parent: None,),
+        Some(Some(p)) => mk!(parent: p,),
+    }
+}
+fn labels_of(create: u8, tag: &str) -> BTreeMap<String, String> {
+    let mut m = BTreeMap::new();
+    if create & 1 != 0 {
+        m.insert("a".to_string(), format!("{}a", tag));
+    }
+    if create & 2 != 0 {
+        m.insert("b".to_string(), format!("{}b", tag));
+    }
+    m
+}
+
+fn explicit_parent_part(res: &mut PartResult) {
+    res.engine = "E3 spans with explicit parents x current spans x filters, same thread and across threads".into();
+    let mut states = vseq::States::new();
+    let dispatch = Dispatch::new(tracing_subscriber::registry().with(MetricsLayer::new()));
+    let mut checks = 0u64;
+    let dummy: Vec<Lvl> = vec![];
+    for filter in [Filter::All, Filter::Allow(vec!["a"]), Filter::Allow(vec!["b", "c"]), Filter::Custom] {
+        let log: Log = Default::default();
+        let rec = filter.build(log.clone());
+        for xc in 0..4u8 {
+            for pc in 0..4u8 {
+                for cc in 0..4u8 {
+                    for mode in 0..3u8 {
+                        for other_thread in [false, true] {
+                            res.executions += 1;
+                            let mut fails: Vec<(String, String)> = Vec::new();
+                            let mut run = |fails: &mut Vec<(String, String)>, checks: &mut u64, states: &mut vseq::States| {
+                                // P: the explicit parent (created at top level, never entered); X: what is current where the child is created
+                                let p = mk_span_with_parent(pc, "P", Some(None));
+                                let x = mk_span_with_parent(xc, "X", Some(None));
+                                let _xg = x.enter();
+                                let child = match mode {
+                                    0 => mk_span_with_parent(cc, "C", Some(Some(&p))),
+                                    1 => mk_span_with_parent(cc, "C", Some(None)),
+                                    _ => mk_span_with_parent(cc, "C", None), // contextual: X is the parent
+                                };
+                                let mut want = labels_of(cc, "C");
+                                let inherited = match mode {
+                                    0 => labels_of(pc, "P"),
+                                    1 => BTreeMap::new(),
+                                    _ => labels_of(xc, "X"),
+                                };
+                                for (k, v) in inherited {
+                                    want.entry(k).or_insert(v);
+                                }
+                                let _cg = child.enter();
+                                let mut env = Env { rec: rec.as_ref(), log: &log, filter: &filter, fails, checks, states, tree: &dummy };
+                                emit_and_check(&mut env, Some(&want), &format!("inside a span created with {} while span X(create={}) was current (P create={}, child create={}, other thread: {})", ["parent: &P", "parent: None", "the contextual parent"][mode as usize], xc, pc, cc, other_thread));
+                            };
+                            if other_thread {
+                                // the recorder is not Send: build a second one for the helper thread over the same log type
+                                let d2 = dispatch.clone();
+                                let f2 = filter.clone();
+                                let out = std::thread::spawn(move || {
+                                    let log2: Log = Default::default();
+                                    let rec2 = f2.build(log2.clone());
+                                    let mut fails: Vec<(String, String)> = Vec::new();
+                                    let mut checks = 0u64;
+                                    let mut st = vseq::States::new();
+                                    tracing::dispatcher::with_default(&d2, || {
+                                        let p = mk_span_with_parent(pc, "P", Some(None));
+                                        let handle = {
+                                            let p2 = p.clone();
+                                            let d3 = d2.clone();
+                                            let f3 = f2.clone();
+                                            std::thread::spawn(move || {
+                                                tracing::dispatcher::with_default(&d3, || {
+                                                    let log3: Log = Default::default();
+                                                    let rec3 = f3.build(log3.clone());
+                                                    let x = mk_span_with_parent(xc, "X", Some(None));
+                                                    let _xg = x.enter();
+                                                    let child = match mode {
+                                                        0 => mk_span_with_parent(cc, "C", Some(Some(&p2))),
+                                                        1 => mk_span_with_parent(cc, "C", Some(None)),
+                                                        _ => mk_span_with_parent(cc, "C", None),
+                                                    };
+                                                    let mut want = labels_of(cc, "C");
+                                                    let inherited = match mode {
+                                                        0 => labels_of(pc, "P"),
+                                                        1 => BTreeMap::new(),
+                                                        _ => labels_of(xc, "X"),
+                                                    };
+                                                    for (k, v) in inherited {
+                                                        want.entry(k).or_insert(v);
+                                                    }
+                                                    let _cg = child.enter();
+                                                    let mut fails: Vec<(String, String)> = Vec::new();
+                                                    let mut checks = 0u64;
+                                                    let mut st = vseq::States::new();
+                                                    let dummy: Vec<Lvl> = vec![];
+                                                    let mut env = Env { rec: rec3.as_ref(), log: &log3, filter: &f3, fails: &mut fails, checks: &mut checks, states: &mut st, tree: &dummy };
+                                                    emit_and_check(&mut env, Some(&want), &format!("inside a span created on ANOTHER THREAD with mode {} (X create={}, P create={}, child create={})", mode, xc, pc, cc));
+                                                    (fails, checks)
+                                                })
+                                            })
+                                        };
+                                        let (f, c) = handle.join().unwrap();
+                                        fails.extend(f);
+                                        checks += c;
+                                        let _ = (&rec2, &mut st);
+                                    });
+                                    (fails, checks)
+                                }).join().unwrap();
+                                fails.extend(out.0);
+                                checks += out.1;
+                            } else {
+                                tracing::dispatcher::with_default(&dispatch, || run(&mut fails, &mut checks, &mut states));
+                            }
+                            for (sig, msg) in fails {
+                                res.violation(&sig, msg, json!({"explicit": [xc, pc, cc, mode, other_thread], "filter": format!("{:?}", filter)}));
+                            }
+                        }
+                    }
+                }
+            }
+        }
+    }
+    res.transitions = checks;
+    res.states = states.len().max(1);
+    res.distinct_outcomes = states.len().max(1);
+    res.sample(json!({"current": "X{a}", "explicit_parent": "P{b}", "child": "C{}", "expected_labels_inside_child": "b=Pb (from P), nothing from X"}));
+}
+
 #[derive(Debug)]
 struct Dbg(u8);
 
@@ -408,7 +553,7 @@ fn filters(all: bool) -> Vec<Filter> {
 
 fn parts(ctx: &Ctx) -> Vec<PartSpec> {
     let b = if ctx.quick() { 50.0 } else { 2400.0 };
-    let mut v = vec![PartSpec::new("value-types", json!({"p": "values"}))];
+    let mut v = vec![PartSpec::new("value-types", json!({"p": "values"})), PartSpec::new("explicit-parents", json!({"p": "explicit"}))];
     let fl = filters(true);
     let depth = if ctx.quick() { 3 } else { 4 };
     for fi in 0..fl.len() {
@@ -422,6 +567,8 @@ fn run(ctx: &Ctx, spec: &PartSpec) -> PartResult {
     vseq::quiet_panics();
     if spec.arg["p"].as_str() == Some("values") {
         value_types_part(&mut res);
+    } else if spec.arg["p"].as_str() == Some("explicit") {
+        explicit_parent_part(&mut res);
     } else {
         let fl = filters(true);
         let f = fl[spec.arg["filter"].as_u64().unwrap_or(0) as usize].clone();
